@@ -286,11 +286,17 @@ def run_C17(ctx):
         if not d or not d.get('ok'):
             continue
         g = out['grammars'][gname]
-        raw = out['res'][gname][vn].get(('trace', payload))
+        nested = payload.startswith('N:')
+        if nested:
+            # a traced parse with another traced parse running in the middle of it (its lines were cut out): input = the outer one
+            raw = out['res'][gname][vn].get(('tracen', payload[2:]))
+            payload = payload[2:].split(',')[0]
+        else:
+            raw = out['res'][gname][vn].get(('trace', payload))
         if raw is None:
             continue
         ir = genrun.parse_result(raw)
-        if ir['kind'] == 'L':
+        if ir['kind'] in ('L', 'T'):
             continue
         ctx.evaluations += 1
         ntr += 1
@@ -502,6 +508,10 @@ def c18_grammars(ctx):
     gs = [('c_' + k, g) for k, g in gram.curated().items()]
     gs.append(('h_accept_reduce', gram.from_text("S: a | S opt b ; opt: | c")))
     gs.append(('h_angle', gram.from_text("S: S < S | S > S | x", (('left', ['<', '>']),))))
+    # states with 13, 15 and 26 items (a calculator with a dozen binary operators and more)
+    for k in (12, 14, 25):
+        ops = 'abcdefghijklmnopqrstuvwyz'[:k]
+        gs.append(('h_many_items%d' % k, gram.from_text('S: ' + ' | '.join('S %s S' % o for o in ops) + ' | x', (('left', list(ops)),))))
     mt = [dict(name='a', lit=None, tag='v0', num=None, declared=True)] + [dict(name='m%d' % i, lit=c, tag='v0', num=None, declared=True) for i, c in enumerate('{}"|')]
     mr = [dict(lhs=0, rhs=[('t', 0)], prec=None, c=0, coef=[1]), dict(lhs=0, rhs=[('n', 0), ('t', 4), ('n', 0)], prec=None, c=0, coef=[1, 1, 1]),
           dict(lhs=0, rhs=[('t', 1), ('n', 0), ('t', 2)], prec=None, c=0, coef=[1, 1, 1]), dict(lhs=0, rhs=[('t', 3)], prec=None, c=0, coef=[1])]
